@@ -219,18 +219,28 @@ class ExprGen:
         if hasattr(obj, "on"):
             poss = list(self.schema.get_possible_types(t))
             self.rng.shuffle(poss)
-            for ot in poss[:2]:
+            for ot in poss[:3]:
                 oh = self.holder_for(ot)
                 subs = []
-                for fname in list(ot.fields)[:3]:
+                # fields that several member types share (inherited interface fields) come first: the same argument name then occurs in several fragments
+                names_ = sorted(ot.fields, key=lambda f_: (not (ot.fields[f_].args and any(f_ in o2.fields for o2 in poss if o2 is not ot)), list(ot.fields).index(f_)))
+                for fname in names_[:4]:
                     named = get_named_type(ot.fields[fname].type)
-                    if not (is_leaf_type(named) and not ot.fields[fname].args):
+                    if not is_leaf_type(named):
                         continue
+                    if ot.fields[fname].args and level >= 2 and "builder.depth_ge2_args" not in self.dirty:
+                        continue
+                    if any(c[1]["field"] == fname for c in chosen):
+                        continue  # already selected on the abstract type itself: selecting it again with other arguments would be a conflicting tree
                     m = self.member(oh, ot, fname, 0, level)
                     if m is not None:
                         subs.append(m)
                 if subs:
                     obj.on(ot.name, *[s[0] for s in subs])
+                    for s_ in subs:
+                        s_[1]["only_for_type"] = ot.name
+                        if s_[1]["args"] and any(s_[1]["field"] == x["field"] and x["args"] for other in shape["on"].values() for x in other):
+                            self.feats.add("on.same_argument_in_two_fragments")
                     shape["on"][ot.name] = [s[1] for s in subs]
                     self.feats.add("field.on")
         return bool(shape["children"] or shape["on"])
@@ -247,6 +257,11 @@ class ExprGen:
         out = []
         names = list(root.fields)
         self.rng.shuffle(names)
+        if kind == "query" and self.rng.random() < 0.4:
+            pref = self.rng.choice(["vfSearch", "vfNodes"])
+            if pref in names:
+                names.remove(pref)
+                names.insert(0, pref)
         for fname in names:
             if len(out) >= n_fields:
                 break
@@ -290,6 +305,15 @@ def worker(case: Dict[str, Any]) -> CaseResult:
 
     dirty = set(case.get("dirty", []))
     spec, sfeats, _ = generate_schema(case["seed"] * 100003 + case["idx"], set(), size="m")
+    # a fixed corner every schema gets: an interface whose argument-carrying field is inherited by three types, reachable through an interface and a union field,
+    # so that the SAME argument name occurs in several .on() fragments of one top-level field
+    from ..gen.schema import Arg, Field
+    meta = [Field("vfMeta", "String", [Arg("key", "String!"), Arg("lang", "String")]), Field("vfId", "ID!")]
+    spec.interfaces["VfNode"] = ([], list(meta))
+    for tn, extra in (("VfUser", "vfName"), ("VfPost", "vfTitle"), ("VfComment", "vfBody")):
+        spec.objects[tn] = (["VfNode"], list(meta) + [Field(extra, "String", [Arg("key", "String")])])
+    spec.unions["VfSearch"] = ["VfUser", "VfPost", "VfComment"]
+    spec.objects[spec.roots["query"]][1].extend([Field("vfSearch", "[VfSearch!]!", [Arg("text", "String")]), Field("vfNodes", "[VfNode!]!")])
     sdl = spec.sdl()
     schema_ref = build_schema(sdl)
     if validate_schema(schema_ref):
@@ -345,6 +369,7 @@ def worker(case: Dict[str, Any]) -> CaseResult:
         n_expr = 24 if case.get("tier") == "thorough" else 10
         kinds = ["query"] * 3 + (["mutation"] if schema_ref.mutation_type else [])
         docs_first: Dict[int, Any] = {}
+        all_expr_feats: Set[str] = set()
         for round_ in (0, 1):  # round 1 rebuilds every expression after all the others were built and sent: history-freedom
             for ei in range(n_expr):
                 seed = case["seed"] * 7919 + case["idx"] * 101 + ei
@@ -360,8 +385,9 @@ def worker(case: Dict[str, Any]) -> CaseResult:
                     count("expressions_empty")
                     continue
                 fl = sorted(feats | eg.feats)
+                all_expr_feats.update(eg.feats)
                 dirty_used = sorted(f for f in eg.feats if f in DIRTY)
-                world = World(schema_ref, seed=seed)
+                world = World(schema_ref, seed=seed, mode="full3")
                 server.world = world
                 n0 = len(server.captured)
                 status, value = call(kind, [f[0] for f in fields], "Op%d" % ei)
@@ -433,7 +459,7 @@ def worker(case: Dict[str, Any]) -> CaseResult:
                     for s in shs:
                         p = path + (s["key"],)
                         if s["args"]:
-                            want_args.append((p, s["args"]))
+                            want_args.append((p, s.get("only_for_type"), s["args"]))
                         collect(s["children"], p)
                         for tname, sub in s["on"].items():
                             collect(sub, p)
@@ -441,22 +467,46 @@ def worker(case: Dict[str, Any]) -> CaseResult:
                 recv = {}
                 for p, f, a in world.received_args:
                     kp = tuple(x for x in p if not isinstance(x, int))
-                    recv.setdefault(kp, json.loads(json.dumps(a, default=str)))
-                for p, args in want_args:
+                    recv.setdefault((kp, world.parent_types.get(p)), json.loads(json.dumps(a, default=str)))
+                for p, tname, args in want_args:
                     count("argument_sets_checked")
-                    got = recv.get(p)
+                    got = next((v for (kp, pt), v in recv.items() if kp == p and (tname is None or pt == tname)), None)
                     if got is None:
-                        continue  # position not reached in this world (null parent / empty list)
+                        continue  # position not reached in this world (null parent / empty list / other runtime type)
                     sup = {k: got.get(k) for k in args}
                     if sup != json.loads(json.dumps(args)):
                         violations.append(Violation(PROP, "arguments-delivered", "expression %d at %r: resolver received %r, caller passed %r" % (ei, p, sup, args), fl, replay_case,
                                                     mech=(dirty_used[0] if dirty_used else "c14:arguments-delivered")))
                     extra = {k: v for k, v in got.items() if k not in args and v is not None}
                 count("faithful_documents")
+                # ---- the same field OBJECTS used again in a later operation, at other top-level positions, give the document a fresh tree gives
+                if "builder.shared_field_mutation" not in dirty:
+                    def fresh(seed_):
+                        eg2 = ExprGen(pkg, schema_ref, random.Random(seed_), dirty)
+                        return eg2.operation(kind, 1 + ei % 3)
+                    extra_seed = seed + 500009
+                    extra_used = fresh(extra_seed)
+                    extra_fresh = fresh(extra_seed)
+                    fresh_fields = fresh(seed)
+                    if extra_used and extra_fresh and fresh_fields and len(fresh_fields) == len(fields):
+                        def send(objs, name):
+                            w2 = World(schema_ref, seed=seed)
+                            server.world = w2
+                            n1 = len(server.captured)
+                            call(kind, objs, name)
+                            got_ = server.captured[n1:]
+                            return json.dumps({"q": got_[0].get("query"), "v": got_[0].get("variables")}, sort_keys=True, default=str) if len(got_) == 1 else "requests=%d" % len(got_)
+                        reused_doc = send([extra_used[0][0]] + [f[0] for f in reversed(fields)], "Re%d" % ei)
+                        fresh_doc = send([extra_fresh[0][0]] + [f[0] for f in reversed(fresh_fields)], "Re%d" % ei)
+                        count("object_reuse_comparisons")
+                        if reused_doc != fresh_doc:
+                            violations.append(Violation(PROP, "history-free-object-reuse", "expression %d: field objects already sent in an earlier operation give a different document when "
+                                                        "used again at other positions than the same tree built fresh\n reused: %s\n fresh:  %s" % (ei, reused_doc[:600], fresh_doc[:600]),
+                                                        fl, replay_case, mech="c14:history-free-object-reuse"))
     sample = None
     if case["idx"] < 2 and docs_first:
         sample = {"dirty": sorted(dirty), "document": json.loads(next(iter(docs_first.values())))}
-    return CaseResult("violated" if violations else "held", [v.to_json() for v in violations], stats, {"features": sorted(feats)}, sample=sample)
+    return CaseResult("violated" if violations else "held", [v.to_json() for v in violations], stats, {"features": sorted(feats | all_expr_feats)}, sample=sample)
 
 
 def run(tier: str, seed: int) -> int:
@@ -466,7 +516,7 @@ def run(tier: str, seed: int) -> int:
               "document is validated, executed on the reference server, compared in shape and delivered arguments with its expression, and rebuilt after the other "
               "expressions were built and sent; the four listed defect mechanisms are switched on one at a time in separate cases; distinct = distinct feature-set")
     r.assumptions = ["graphql-core validate/execute as reference", "snake-casing of the reference mapping is only used to *find* builder members; a missing member is reported"]
-    r.floors = {"expressions": 300, "documents_valid": 150, "faithful_documents": 150, "history_comparisons": 150, "argument_sets_checked": 50}
+    r.floors = {"expressions": 300, "documents_valid": 150, "faithful_documents": 150, "history_comparisons": 150, "argument_sets_checked": 50, "object_reuse_comparisons": 100}
     n = 600 if tier == "thorough" else 90
     cases = []
     for i in range(n):
